@@ -43,6 +43,7 @@ fn dss(scheme: u16, sig: &[u8]) -> rustls::DigitallySignedStruct {
 
 /// Offer one certificate to every verifier; compare with the reference. `what` labels the input.
 fn check_cert(out: &mut UnitResult, what: &str, cert: &[u8], must_accept_as: Option<[u8; 32]>) {
+    crate::pool::crumb(|| format!("certificate verifiers on `{what}`"));
     let now = UnixTime::now();
     let r = certs::reference(cert, now_unix());
     let der = CertificateDer::from(cert.to_vec());
@@ -313,7 +314,7 @@ async fn scenario(sim: Arc<Sim>, unit: Value) -> Obs {
                 Err(e) => o.log.push(format!("adversary's handshake failed: {e}")),
             }
         }
-        "dialed" | "dialed_pinned_x" | "dialed_pinned_y" => {
+        "dialed" | "dialed_pinned_x" | "dialed_pinned_y" | "dialed_pinned_y_then_x" | "dialed_pinned_y_disconnect_then_x" | "dialed_then_pinned_x" => {
             let adv = Adversary::new(&sim, Some(&id));
             let ep = adv.endpoint.clone();
             let b2 = behaviour.to_string();
@@ -339,7 +340,28 @@ async fn scenario(sim: Arc<Sim>, unit: Value) -> Obs {
             let r = match role {
                 "dialed" => v.connect(adv.addr).await,
                 "dialed_pinned_x" => v.connect_with_peer_id(adv.addr, xid).await,
-                _ => v.connect_with_peer_id(adv.addr, yid).await,
+                "dialed_pinned_y" => v.connect_with_peer_id(adv.addr, yid).await,
+                // multi-step histories: a first dial to the same address (with another or no
+                // expectation), then a dial expecting X, which this party can never satisfy
+                _ => {
+                    let first = if role == "dialed_then_pinned_x" { v.connect(adv.addr).await } else { v.connect_with_peer_id(adv.addr, yid).await };
+                    o.log.push(format!("first dial: {:?}", first.as_ref().map(|p| sim.label(p)).map_err(|e| e.to_string().chars().take(60).collect::<String>())));
+                    if let Ok(p) = &first {
+                        if *p == xid {
+                            viol!("impersonation", "{ctx} the first dial returned X");
+                        }
+                    }
+                    tokio::time::sleep(ms(50)).await;
+                    if role == "dialed_pinned_y_disconnect_then_x" {
+                        let _ = v.disconnect(yid);
+                        tokio::time::sleep(ms(50)).await;
+                    }
+                    let second = v.connect_with_peer_id(adv.addr, xid).await;
+                    if second.is_ok() {
+                        viol!("pin-bypassed", "{ctx} after an earlier dial to the same address, connect_with_peer_id(X) succeeded against a party without X's key");
+                    }
+                    second
+                }
             };
             connect_result = Some(r.map_err(|e| e.to_string().chars().take(100).collect()));
             tokio::time::sleep(ms(100)).await;
@@ -425,7 +447,7 @@ impl Check for C01 {
         CheckMeta {
             property: "C01",
             level: "fault_enumeration",
-            rule: "verifier layer: honest, replayed, re-signed, non-Ed25519, expired, not-yet-valid, wrong-EKU, wrong-name, concatenated certificates, every truncation and every single-byte substitution (5 values quick / all 255 thorough) of a valid certificate, offered to the client verifier, the server verifier (with and without an attached intermediate, pinned to X and to Y) and peer_id_from_certificate, against a ring + x509-parser reference; handshake-signature verifiers on all 65536 scheme codes x {right, wrong key}, every single-bit flip of a valid signature and every single-byte change of the message, for all three verifier types; system layer: adversary role {dials, is dialed, is dialed with pin X, with pin Y} x 9 presented identities x {complete, stall before the acknowledgement, close early}, with datagram-fate deviations over the handshake, and requests/responses whose contents name X; distinct = distinct (verdict class / role, admitted)".into(),
+            rule: "verifier layer: honest, replayed, re-signed, non-Ed25519, expired, not-yet-valid, wrong-EKU, wrong-name, concatenated certificates, every truncation and every single-byte substitution (5 values quick / all 255 thorough) of a valid certificate, offered to the client verifier, the server verifier (with and without an attached intermediate, pinned to X and to Y) and peer_id_from_certificate, against a ring + x509-parser reference; handshake-signature verifiers on all 65536 scheme codes x {right, wrong key}, every single-bit flip of a valid signature and every single-byte change of the message, for all three verifier types; system layer: adversary role {dials, is dialed, is dialed with pin X, with pin Y, is dialed with pin Y (or none) and then - with or without a disconnect in between - with pin X} x 9 presented identities x {complete, stall before the acknowledgement, close early}, with datagram-fate deviations over the handshake, and requests/responses whose contents name X; distinct = distinct (verdict class / role, admitted)".into(),
             assumptions: vec!["three fixed key pairs (victim, X, adversary Y); ring's Ed25519 and x509-parser are the trusted reference".into()],
             exhaustive: true,
         }
@@ -436,7 +458,7 @@ impl Check for C01 {
         for part in 0..16 {
             u.push(json!({"kind":"verifier","part":part,"parts":16}));
         }
-        for role in ["dials", "dialed", "dialed_pinned_x", "dialed_pinned_y"] {
+        for role in ["dials", "dialed", "dialed_pinned_x", "dialed_pinned_y", "dialed_pinned_y_then_x", "dialed_pinned_y_disconnect_then_x", "dialed_then_pinned_x"] {
             for ident in IDENTITIES {
                 if role != "dials" && ident == "no_cert" {
                     continue; // a server cannot run without a certificate
